@@ -13,7 +13,7 @@ using namespace Vector::BLF;
 #ifndef MAXN
 #define MAXN 3
 #endif
-#define NOPS 8
+#define NOPS 9
 
 struct Model {
     unsigned char data[64]; long have = 0;      // bytes ever written, absolute positions 0..have
@@ -45,6 +45,10 @@ extern "C" void h_stream() {
     u.setDefaultLogContainerSize(c0); m.csize = c0;
     for (int s = 0; s < STEPS; s++) {
         uint32_t op = (s == 0 && FIRST_OP >= 0) ? (uint32_t)FIRST_OP : (uint32_t)vp_concrete(vp_choose(NOPS, "op"));
+        // would-block verdicts of potential waiters before the operation (no lost wake-up obligation)
+        uint64_t ng = vp_notified(&u.tellgChanged), np = vp_notified(&u.tellpChanged);
+        bool wb0 = !m.ab && !((m.tellp - m.tellg) < m.bs);
+        bool rb0[5]; for (long k = 1; k <= 4; k++) rb0[k] = !m.ab && !(k + m.tellg <= m.tellp) && !(k + m.tellg > m.fs);
         if (op == 0) {                    // write(n bytes)
             long n = (long)vp_concrete(vp_choose(MAXN + 1, "wn"));
             unsigned char b[MAXN + 1]; vp_bytes(b, MAXN + 1, "wdata");
@@ -65,7 +69,7 @@ extern "C" void h_stream() {
             lc->uncompressedFile.resize(static_cast<size_t>(k));
             vp_bytes(lc->uncompressedFile.data(), k, "cdata");
             lc->uncompressedFileSize = static_cast<uint32_t>(k);
-            bool expectBlock = !m.ab && !(static_cast<uint32_t>(m.tellp - m.tellg) < m.bs);
+            bool expectBlock = !m.ab && !((m.tellp - m.tellg) < m.bs);
             bool blocked = false;
             vp_probe(1); try { u.write(lc); } catch (VpBlocked &) { blocked = true; } vp_probe(0);
             A(blocked == expectBlock);
@@ -101,8 +105,24 @@ extern "C" void h_stream() {
         } else if (op == 4) { u.nextLogContainer(); if (m.cend > m.tellp && m.tellp > m.cend - (long)m.csize) m.cend = m.tellp; }
         else if (op == 5) { u.dropOldData(); long l = m.tellg < m.tellp ? m.tellg : m.tellp; if (m.fs < l) l = m.fs; if (l > m.low) m.low = l; }
         else if (op == 6) { long v = m.tellp; u.setFileSize(v); m.fs = v; }     // declare the end at the put position
-        else { uint32_t c = 1 + (uint32_t)vp_concrete(vp_choose(3, "c")); u.setDefaultLogContainerSize(c); m.csize = c; A(u.defaultLogContainerSize() == c); }
+        else if (op == 7) { uint32_t c = 1 + (uint32_t)vp_concrete(vp_choose(3, "c")); u.setDefaultLogContainerSize(c); m.csize = c; A(u.defaultLogContainerSize() == c); }
+        else { long b = 1 + (long)vp_concrete(vp_choose(4, "bs")); u.setBufferSize(b); m.bs = b; }   // small back-pressure threshold
         observe(u, m);
+        // a waiter whose predicate became true through this operation must have been notified
+        // (setBufferSize is configuration before the stream is shared)
+        // single producer / single consumer: the consumer's own operations (read, seekg, dropOldData) need not wake the
+        // consumer, the producer's own operations (write, nextLogContainer, setFileSize) need not wake the producer
+        bool consumerOp = (op == 2 || op == 3 || op == 5), producerOp = (op == 0 || op == 1 || op == 4 || op == 6);
+        if (consumerOp) {
+            bool wb1 = !m.ab && !((m.tellp - m.tellg) < m.bs);
+            if (wb0 && !wb1) vp_assert(vp_notified(&u.tellgChanged) > ng, "a writer waiting for buffer space is notified when space becomes available");
+        }
+        if (producerOp) {
+            for (long k = 1; k <= 4; k++) {
+                bool rb1 = !m.ab && !(k + m.tellg <= m.tellp) && !(k + m.tellg > m.fs);
+                if (rb0[k] && !rb1) vp_assert(vp_notified(&u.tellpChanged) > np, "a reader waiting for data or for the end is notified when its wait condition becomes true");
+            }
+        }
     }
     // drain: everything not yet read comes out in order (FIFO), whatever the chunking was
     {
